@@ -198,9 +198,29 @@ func (w *sgWorld) barriers() {
 	}
 }
 
+// every seventh event carries seventy thousand bytes behind its number: more than one read, more than one 64 KiB block
+var sgPad = strings.Repeat("~", 70000)
+
+func sgPayload(id string) string {
+	if n, err := strconv.Atoi(id); err == nil && n%7 == 3 {
+		return id + sgPad
+	}
+	return id
+}
+
 func sgDecode(p []byte) string {
 	if len(p) >= 4 && int(binary.LittleEndian.Uint32(p)) == len(p)-4 {
-		return string(p[4:])
+		s := string(p[4:])
+		if i := strings.IndexByte(s, '~'); i >= 0 {
+			if s[i:] != sgPad {
+				return fmt.Sprintf("?%s+%d-bytes-of-padding-damaged", s[:i], len(s)-i)
+			}
+			return s[:i]
+		}
+		return s
+	}
+	if len(p) > 64 {
+		return "?" + hx(p[:64]) + "…"
 	}
 	return "?" + hx(p)
 }
@@ -492,7 +512,7 @@ func execSg(op string) func(a []string) string {
 			return "pending"
 		case "emit":
 			done := make(chan error, 1)
-			go func() { done <- w.impl.h.SignalPong(a[0]) }()
+			go func() { done <- w.impl.h.SignalPong(sgPayload(a[0])) }()
 			select {
 			case <-done:
 				w.barriers()
